@@ -202,7 +202,7 @@ class CfgWorld:
         cfg, model = self.irs[c].cfg, self.model[c]
         op = rnd.choice(["add", "add", "add", "discard", "remove", "pop",
                          "clear", "update", "ior", "iand", "isub", "ixor",
-                         "move", "query", "clone"])
+                         "move", "query", "clone", "reuuid"])
         es = self.edges(c)
         if self.dense and rnd.random() < 0.15:
             # fill one ordered pair with all labels but a few, in one call
@@ -305,6 +305,17 @@ class CfgWorld:
                     s = gt.Section(name="s", module=self.mods[home])
                     n.byte_interval = gt.ByteInterval(size=20, section=s)
             self.where[i] = home
+        elif op == "reuuid":
+            # a node that is not attached to any IR gets another UUID (the
+            # CFG compares nodes by identity, so nothing may change)
+            loose = [i for i in range(len(self.nodes))
+                     if self.where[i] is None]
+            if loose:
+                import uuid as _uuid
+                i = rnd.choice(loose)
+                self.nodes[i].uuid = _uuid.UUID(int=rnd.getrandbits(128))
+                self.case.ops[-1]["node"] = i
+                self.ctx.count("op:reuuid_unattached_endpoint")
         elif op == "clone":
             # the other IR is replaced by one constructed from this CFG's
             # edges (the object itself, or a set / list / iterator of
